@@ -105,6 +105,9 @@ type Case struct {
 	// SwapWriter: before doing anything else the handler replaces the context's writer (Context.SetWriter) by a fresh one
 	// built on the raw underlying writer, and answers through it: the record carries what that writer recorded.
 	SwapWriter bool        `json:"swap_writer,omitempty"`
+	// LateDebug: the slog handler refuses DEBUG records while the middleware and the router are being built and accepts every
+	// level from then on (a slog.LevelVar lowered at run time): which records a handler accepts is its answer at logging time.
+	LateDebug bool `json:"late_debug,omitempty"`
 	Global     ResolverCfg `json:"global_resolver"`
 	Route      ResolverCfg `json:"route_resolver"`
 	Method     string      `json:"method"`
@@ -269,9 +272,14 @@ type run struct {
 	w        *under
 }
 
-type capture struct{ r *run }
+type capture struct {
+	r    *run
+	open *bool // nil: every level accepted from the start; otherwise DEBUG is refused until *open
+}
 
-func (h capture) Enabled(context.Context, slog.Level) bool { return true }
+func (h capture) Enabled(_ context.Context, l slog.Level) bool {
+	return h.open == nil || *h.open || l >= slog.LevelInfo
+}
 func (h capture) WithAttrs([]slog.Attr) slog.Handler       { return h }
 func (h capture) WithGroup(string) slog.Handler            { return h }
 func (h capture) Handle(_ context.Context, r slog.Record) error {
@@ -438,7 +446,11 @@ func serve(c *Case, withLogger bool) (*run, error) {
 			next(fc)
 		}
 	}
-	logger := fox.LoggerWithHandler(capture{r})
+	var open *bool
+	if c.LateDebug {
+		open = new(bool)
+	}
+	logger := fox.LoggerWithHandler(capture{r, open})
 
 	var opts []fox.GlobalOption
 	if c.Recovery {
@@ -522,6 +534,9 @@ func serve(c *Case, withLogger bool) (*run, error) {
 	}
 	if _, err := f.Handle(regMethod, pattern, script, ropts...); err != nil {
 		return nil, err
+	}
+	if open != nil {
+		*open = true
 	}
 	// Dirty the context pool first: an unrelated route with its own resolver is served directly and through an ignored
 	// trailing slash, so that the judged request runs on a recycled context that last belonged to another route.
@@ -671,6 +686,9 @@ func check(c *Case, count bool) error {
 		stats.Class("kind:" + c.Kind)
 		stats.Class("behaviour:" + c.Beh)
 		stats.Class("install:" + c.Install)
+		if c.LateDebug {
+			stats.Class("slog-handler-accepts-debug-only-after-construction")
+		}
 		stats.Class("resolver-effective:" + eff.Mode)
 		stats.Class("resolver-config:global=" + c.Global.Mode + ",route=" + c.Route.Mode)
 		if c.Recovery {
@@ -1048,6 +1066,7 @@ func genCase(t *rapid.T) *Case {
 	c.Flusher = gen.Pick(t, []string{"", "flush", "flusherror", "both"}, "flusher")
 	c.Prior = gen.Chance(t, 1, 2, "prior")
 	c.SwapWriter = gen.Chance(t, 1, 5, "swapwriter")
+	c.LateDebug = gen.Chance(t, 1, 4, "latedebug")
 	gi := gen.U(t, len(ipPool), "globalIP")
 	ri := (gi + 1 + gen.U(t, len(ipPool)-1, "routeIP")) % len(ipPool)
 	c.Global = genResolver(t, []string{"none", "none", "nil", "ok", "ok", "ok", "fail", "fail"}, gi, "globalResolver")
